@@ -1,10 +1,54 @@
 (* C06 - Safe-to-notar / safe-to-skip are signalled exactly when the protocol allows.
-   Only property theorems (closed by lemmas of Proofs/SafeToProofs.v) and Print Assumptions.
-   PARTIAL: soundness and at-most-once are proved for the model; "as soon as all conditions hold,
-   whichever arrives last" (completeness) is not yet a theorem - it is decided by the completeness
-   oracle on implementation traces (Oracle/PoolRun.v, c06_step_ok) over shuffled trigger groups. *)
+   Only property theorems (closed by lemmas of Proofs/SafeToProofs.v, Proofs/SafeToComplete.v,
+   Proofs/SafeToPool.v) and Print Assumptions.
+
+   PROVED for the model of the current tree (all stake distributions, all admitted votes over any number of
+   competing blocks, all orders of votes / own vote / block registration / parent certificate, no bounds):
+     soundness + at most once       C06_s2n_sound_once, C06_s2s_sound_once
+     COMPLETENESS, one slot state   C06_slot_flags_are_conditions: in every reachable slot state the sent-flag
+                                    of a block EQUALS its condition (likewise safe-to-skip);
+                                    C06_slot_step_exact: an operation raises SafeToNotar(s,h) iff it makes the
+                                    condition of h true, and then exactly once - whichever of vote / own vote /
+                                    block registration / parent certified arrives last;
+                                    C06_slot_history_exact: exactly once over a whole history
+     COMPLETENESS, through the pool C06_pool_complete: in every pool reached by pool_step from the initial pool
+                                    without panic, the condition on the pool's state - slot retained, block
+                                    registered with parent par, par is genesis or a Notar / NotarFallback /
+                                    FastFinal certificate for par is held, own vote, stake - implies that the
+                                    signal was raised, exactly once over the whole history;
+                                    C06_pool_step_exact, C06_pool_trigger_emits: the last-arriving trigger
+                                    raises it (the cross-slot path parent certificate -> waiting children
+                                    included); C06_pool_safe_to_skip_complete; C06_pool_invariant
+     stake figures                  C06_stakes_are_stored_votes, C06_condition_on_stored_votes,
+                                    C06_skip_figures_are_stored_votes (stake of distinct validators with
+                                    stored votes)
+   REFUTED:
+     C06_pinned_genesis_parent_refuted        pinned tree (pool_add_block_gen false): a child of genesis never
+                                              got SafeToNotar; fixed by 60d950a, the theorems above are about
+                                              pool_add_block = pool_add_block_gen true
+     C06_received_parent_cert_pruned_refuted  FINDING, current tree: "holds" cannot be weakened to "received" -
+                                              the certificate of a parent whose slot was pruned before the
+                                              child block was registered is gone and SafeToNotar is never
+                                              raised (the real pool behaves like the model on this trace; kept
+                                              as the reason why the property, and now the oracle of
+                                              Oracle/PoolRun.v, say "a certificate the node HOLDS")
+     C06_pinned_waiting_child_pruned_panics_refuted  pinned tree (notify_waiting_children_gen false): the
+                                              waiting-children notification panicked ("parent not known") for a
+                                              child whose slot had been pruned; fixed by 599595f - the same trace
+                                              is accepted now (C06_waiting_child_pruned_no_panic) and the
+                                              notification can never panic (C06_waiting_children_never_panic)
+   The pool theorems keep the hypothesis "the step did not panic" (p_panicked p' = false): it no longer guards
+     against the notification, but against the other panics of pool_step, which are reachable and are C10's
+     subject - the finality tracker's consistency asserts (conflicting finalization / notarization, second
+     parent of a block), add_to_ready on a duplicate, a certificate constructor without votes, add_block with
+     parent slot >= block slot, a second waiter, standstill without final certificates.
+   ORACLE-ONLY (not a theorem): that the pool model and the Rust pool agree (correspondence on generated
+     traces); the condition as a statement about the HISTORY of accepted inputs (c06_step_ok) - the theorems
+     speak about the pool's state (stored votes, recorded registrations, held certificates); operations that
+     panic (RPanic) are excluded here as in the oracle. *)
 From Coq Require Import List NArith Bool.
-From AG Require Import Gen.Params Model.Pool Model.PoolSpec Proofs.SlotStateProofs Proofs.SafeToProofs.
+From AG Require Import Gen.Params Model.Pool Model.PoolSpec Model.SafeToSpec
+  Proofs.SlotStateProofs Proofs.SafeToProofs Proofs.SafeToComplete Proofs.SafeToPool.
 Import ListNotations.
 Open Scope N_scope.
 
@@ -30,6 +74,215 @@ Theorem C06_s2s_sound_once : forall e s ss ev ss' ev',
   /\ exists h, alookup (own e) (vo_notar (ss_v ss)) = Some h.
 Proof. exact s2s_try_sound. Qed.
 
+(* ---------------- completeness on one slot state ---------------- *)
+(* the decidable condition used below is the condition of the soundness theorem *)
+Theorem C06_condition_is_the_property : forall e ss h,
+  s2n_condb e ss h = true <-> s2n_conditions e ss h.
+Proof. exact condb_iff_conditions. Qed.
+
+(* INVARIANT: in every slot state the pool can reach (any admitted votes, stored certificates, block
+   registrations and parent-certified notifications, in any order) SafeToNotar(h) has been raised iff the
+   condition of h holds on the stored votes / registered blocks / parent status, and SafeToSkip iff the
+   node notarized a block and skip + non-top notar stake >= 40 % *)
+Theorem C06_slot_flags_are_conditions : forall e ss, ss_reach e ss ->
+  (forall h, s2n_sentb ss h = s2n_condb e ss h) /\ s2s_sent (ss_n ss) = s2s_condb e ss.
+Proof. exact slot_flags_are_conditions. Qed.
+
+(* EXACTLY WHEN: an operation on a reachable slot state raises SafeToNotar(s, h) exactly once if it makes the
+   condition of h true (false before, true after - the last-arriving trigger) and not at all otherwise;
+   likewise SafeToSkip(s); it raises no such event for another slot and no other kind of event *)
+Theorem C06_slot_step_exact : forall e s ss op ss' evs,
+  ss_reach e ss -> ss_op_ok s ss op = true -> ss_apply e s ss op = (ss', evs) ->
+  (forall b, ev_count (is_s2n b) evs
+             = b2n ((fst b =? s) && s2n_condb e ss' (snd b) && negb (s2n_condb e ss (snd b)))) /\
+  (forall s', ev_count (is_s2s s') evs
+              = b2n ((s' =? s) && s2s_condb e ss' && negb (s2s_condb e ss))) /\
+  Forall ev_kind_ok evs.
+Proof. exact step_exact. Qed.
+
+(* whole histories of one slot: after any sequence of operations from the empty state, SafeToNotar(s, h) has
+   been raised exactly once if the condition of h holds now and never otherwise; likewise SafeToSkip(s) *)
+Theorem C06_slot_history_exact : forall e s ops ss evs,
+  ss_run e s ss_empty ops = Some (ss, evs) ->
+  (forall h, ev_count (is_s2n (s, h)) evs = b2n (s2n_condb e ss h)) /\
+  ev_count (is_s2s s) evs = b2n (s2s_condb e ss) /\
+  (forall b, fst b <> s -> ev_count (is_s2n b) evs = O) /\
+  (forall s', s' <> s -> ev_count (is_s2s s') evs = O) /\
+  Forall ev_kind_ok evs.
+Proof. exact run_exact. Qed.
+
+(* the condition evaluated on the stored votes (stake of distinct validators) is the same condition *)
+Theorem C06_condition_on_stored_votes : forall e ss h,
+  ss_reach e ss -> s2n_condb e ss h = s2n_cond_votesb e ss h.
+Proof. exact condb_on_votes. Qed.
+
+(* the figures of safe-to-skip: notar-or-skip stake = stake of the validators holding a skip or a notar vote,
+   top = stake of the most-voted block *)
+Theorem C06_skip_figures_are_stored_votes : forall e ss, ss_reach e ss -> nos_top_ok e ss.
+Proof. exact reach_nos_top. Qed.
+
+(* ---------------- completeness through the pool ---------------- *)
+(* every slot state of a pool reached by any operation sequence (votes, certificates, block registrations,
+   standstill, waits, in any order) without panic is a reachable slot state, and every registered child of a
+   retained slot either knows its parent certified or waits for a parent the pool holds no certificate for *)
+Theorem C06_pool_invariant : forall e ops p evs,
+  pool_exec e pool_init ops = (p, evs) -> p_panicked p = false ->
+  (forall s, ss_reach e (p_ss p s)) /\ link_inv p None.
+Proof. exact pool_reach_inv. Qed.
+
+(* INVARIANT + EXACTLY ONCE: in every such pool, if the slot of b is retained, b is registered with parent
+   par, the pool holds a Notar / NotarFallback / FastFinal certificate for par, the node voted in the slot but
+   not to notarize b, and b's stake condition holds, then SafeToNotar(b) has been raised, exactly once *)
+Theorem C06_pool_complete : forall e ops p evs b par,
+  pool_exec e pool_init ops = (p, evs) -> p_panicked p = false ->
+  pool_s2n_condb e p b par = true ->
+  pool_s2n_sentb p b = true /\ ev_count (is_s2n b) evs = 1%nat.
+Proof. exact pool_complete_once. Qed.
+
+Theorem C06_pool_safe_to_skip_complete : forall e ops p evs s,
+  pool_exec e pool_init ops = (p, evs) -> p_panicked p = false ->
+  pool_s2s_condb e p s = true ->
+  pool_s2s_sentb p s = true /\ ev_count (is_s2s s) evs = 1%nat.
+Proof. exact pool_s2s_complete_once. Qed.
+
+(* EXACTLY WHEN, one pool operation: for every block / slot retained afterwards, the operation raises
+   SafeToNotar(b) once if it makes b's condition true and not at all otherwise; likewise SafeToSkip *)
+Theorem C06_pool_step_exact : forall e p op p' res o,
+  pool_inv e p -> pool_step e p op = (p', res, o) -> p_panicked p' = false ->
+  pool_inv e p' /\
+  (forall b, first_unpruned p' <= fst b ->
+     ev_count (is_s2n b) (po_events o)
+     = b2n (s2n_condb e (p_ss p' (fst b)) (snd b) && negb (s2n_condb e (p_ss p (fst b)) (snd b)))) /\
+  (forall s, first_unpruned p' <= s ->
+     ev_count (is_s2s s) (po_events o) = b2n (s2s_condb e (p_ss p' s) && negb (s2s_condb e (p_ss p s)))).
+Proof. exact pool_step_exact. Qed.
+
+(* the last-arriving trigger raises the event, whichever it is: a vote of another validator, the own vote,
+   the block registration, or the parent's certificate (created from votes or received; through the
+   waiting-children map) *)
+Theorem C06_pool_trigger_emits : forall e p op p' res o b par,
+  pool_inv e p -> pool_step e p op = (p', res, o) -> p_panicked p' = false ->
+  pool_s2n_condb e p' b par = true -> s2n_condb e (p_ss p (fst b)) (snd b) = false ->
+  ev_count (is_s2n b) (po_events o) = 1%nat.
+Proof. exact pool_trigger_emits. Qed.
+
+(* FINDING: "holds" cannot be weakened to "received": a fast-finalization certificate for the parent was
+   accepted, its slot pruned by a later finalization, then the child registered and voted for *)
+Theorem C06_received_parent_cert_pruned_refuted :
+  let e := pruned_parent_epoch in
+  let p := fst (pool_exec e pool_init pruned_parent_ops) in
+  let evs := snd (pool_exec e pool_init pruned_parent_ops) in
+  snd (fst (pool_step e pool_init (OpCert pruned_parent_cert1))) = RVerdict VOk
+  /\ cert_block pruned_parent_cert1 = Some (1, 11)
+  /\ p_panicked p = false /\ retainedb p 3 = true /\ registeredb p (3, 33) (1, 11) = true
+  /\ own_voted_otherb e (p_ss p 3) 33 = true /\ s2n_stakeb e (p_ss p 3) 33 = true
+  /\ holds_parent_certb p (1, 11) = false
+  /\ ev_count (is_s2n (3, 33)) evs = O.
+Proof. exact received_parent_cert_pruned_refuted. Qed.
+
+(* finding on the pinned tree (fixed, 60d950a): a child of genesis never got SafeToNotar although every
+   clause held; [pool_exec_gp true] is the current pool (C06_pool_complete applies to it) *)
+Theorem C06_pinned_genesis_parent_refuted :
+  let e := genesis_child_epoch in
+  let p := fst (pool_exec_gp false e pool_init genesis_child_ops) in
+  let evs := snd (pool_exec_gp false e pool_init genesis_child_ops) in
+  p_panicked p = false /\ pool_s2n_condb e p (1, 7) (0, 0) = true /\ ev_count (is_s2n (1, 7)) evs = O.
+Proof. exact pinned_genesis_parent_refuted. Qed.
+
+Theorem C06_current_variant_is_pool_exec : forall e ops p, pool_exec_gp true e p ops = pool_exec e p ops.
+Proof. exact pool_exec_gp_current. Qed.
+
+(* finding on the pinned tree (fixed, 599595f): the waiting-children map is never pruned; a child whose slot was
+   pruned by the very finalization its parent's late notarization certificate causes made the notification
+   re-create the slot state and panic ("parent not known").  [pruned_child_mid] is the state inside add_valid_cert
+   at the moment the children of (1,11) are notified; the current notification skips the pruned child *)
+Theorem C06_pinned_waiting_child_pruned_panics_refuted :
+  match pruned_child_mid with
+  | Some p1 => first_unpruned p1 = 3 /\ In ((1, 11), (2, 22)) (p_waiting p1)
+               /\ notify_waiting_children_gen false pruned_child_epoch p1 (1, 11) = None
+               /\ notify_waiting_children pruned_child_epoch p1 (1, 11) <> None
+  | None => False
+  end.
+Proof. exact pinned_waiting_child_pruned_panics. Qed.
+
+(* the same history on the current pool: the late certificate is accepted, no panic *)
+Theorem C06_waiting_child_pruned_no_panic :
+  let e := pruned_child_epoch in
+  let p := fst (pool_exec e pool_init pruned_child_ops) in
+  p_panicked p = false /\ In ((1, 11), (2, 22)) (p_waiting p)
+  /\ snd (fst (pool_step e p (OpCert pruned_child_late_cert))) = RVerdict VOk
+  /\ p_panicked (fst (fst (pool_step e p (OpCert pruned_child_late_cert)))) = false.
+Proof. exact waiting_child_pruned_no_panic. Qed.
+
+(* in general: in every pool reached without panic (and, by the same invariants, in the intermediate states
+   of add_valid_cert - Proofs/SafeToPool.nwc_no_panic), notifying the waiting children of any block cannot
+   panic: every waiting child of a retained slot is registered and has a parent status, pruned ones are skipped *)
+Theorem C06_waiting_children_never_panic : forall e ops p evs b0,
+  pool_exec e pool_init ops = (p, evs) -> p_panicked p = false ->
+  notify_waiting_children e p b0 <> None.
+Proof. exact reach_nwc_no_panic. Qed.
+
+(* non-vacuity: stakes [2,3,3], own = 2; notar(5,52) by validator 1, two children of (4,41) registered, own
+   skip vote, the parent's NotarFallback certificate arrives last (cross-slot trigger): the condition of
+   (5,52) holds, the event was raised once, nothing for the sibling (5,51) without votes *)
+Example C06_nonvacuous :
+  let e := mkEpoch [2; 3; 3] 2 in
+  let ops := [OpVote (mkVote 5 (KNotar 52) 1); OpBlock (5, 52) (4, 41); OpBlock (5, 51) (4, 41);
+              OpVote (mkVote 5 KSkip 2); OpCert (mkCert 4 (CNotarFb 41) [0; 1] [] 5)] in
+  let p := fst (pool_exec e pool_init ops) in
+  let evs := snd (pool_exec e pool_init ops) in
+  (p_panicked p, pool_s2n_condb e p (5, 52) (4, 41), pool_s2n_condb e p (5, 51) (4, 41),
+   ev_count (is_s2n (5, 52)) evs, ev_count (is_s2n (5, 51)) evs)
+  = (false, true, false, 1%nat, O).
+Proof. vm_compute. reflexivity. Qed.
+
+(* non-vacuity, genesis parent on the current tree: the same history as the pinned witness raises the event *)
+Example C06_nonvacuous_genesis :
+  let e := genesis_child_epoch in
+  let p := fst (pool_exec e pool_init genesis_child_ops) in
+  (p_panicked p, pool_s2n_condb e p (1, 7) (0, 0), ev_count (is_s2n (1, 7)) (snd (pool_exec e pool_init genesis_child_ops)))
+  = (false, true, 1%nat).
+Proof. vm_compute. reflexivity. Qed.
+
+(* non-vacuity, safe-to-skip with the own notar vote arriving last; and the guards of the slot-level
+   operations are satisfiable (a history of one slot with all four kinds of operation) *)
+Example C06_nonvacuous_skip :
+  let e := mkEpoch [1; 1; 1; 1; 1] 0 in
+  let ops := [OpVote (mkVote 1 (KNotar 8) 1); OpVote (mkVote 1 KSkip 2); OpVote (mkVote 1 (KNotar 7) 0)] in
+  let p := fst (pool_exec e pool_init ops) in
+  (p_panicked p, pool_s2s_condb e p 1, ev_count (is_s2s 1) (snd (pool_exec e pool_init ops))) = (false, true, 1%nat).
+Proof. vm_compute. reflexivity. Qed.
+
+Example C06_nonvacuous_slot :
+  let e := mkEpoch [2; 3; 3] 2 in
+  match ss_run e 5 ss_empty [SOVote (mkVote 5 (KNotar 52) 1); SOKnown 52; SOVote (mkVote 5 KSkip 2);
+                             SOCert (mkCert 5 CSkip [2] [] 3); SOCertified 52] with
+  | Some (ss, evs) => (s2n_condb e ss 52, ev_count (is_s2n (5, 52)) evs) = (true, 1%nat)
+  | None => False
+  end.
+Proof. vm_compute. reflexivity. Qed.
+
 Print Assumptions C06_s2n_sound_once.
 Print Assumptions C06_stakes_are_stored_votes.
 Print Assumptions C06_s2s_sound_once.
+Print Assumptions C06_condition_is_the_property.
+Print Assumptions C06_slot_flags_are_conditions.
+Print Assumptions C06_slot_step_exact.
+Print Assumptions C06_slot_history_exact.
+Print Assumptions C06_condition_on_stored_votes.
+Print Assumptions C06_skip_figures_are_stored_votes.
+Print Assumptions C06_pool_invariant.
+Print Assumptions C06_pool_complete.
+Print Assumptions C06_pool_safe_to_skip_complete.
+Print Assumptions C06_pool_step_exact.
+Print Assumptions C06_pool_trigger_emits.
+Print Assumptions C06_received_parent_cert_pruned_refuted.
+Print Assumptions C06_pinned_genesis_parent_refuted.
+Print Assumptions C06_current_variant_is_pool_exec.
+Print Assumptions C06_pinned_waiting_child_pruned_panics_refuted.
+Print Assumptions C06_waiting_child_pruned_no_panic.
+Print Assumptions C06_waiting_children_never_panic.
+Print Assumptions C06_nonvacuous.
+Print Assumptions C06_nonvacuous_genesis.
+Print Assumptions C06_nonvacuous_skip.
+Print Assumptions C06_nonvacuous_slot.
